@@ -315,6 +315,166 @@ func checkC04(cx *Ctx, r *Report) {
 		}
 	}
 
+	// --- signer discipline: a signing function reports success only after the signing call succeeded ----------------
+	// (the mirror image of C05's verifier discipline: `if err != nil` weakened, an early `return nil`, or an error of an
+	// earlier step returned while it is nil, hands back "signed" without a signature - the reply goes out unsigned)
+	for _, sg := range []struct {
+		key    string
+		crypto []string
+	}{
+		{"provider.createRedirectSignature", []string{"signature.CreateRedirect"}},
+		{"provider.createPostSignature", []string{"signature.Create"}},
+		{"signature.Create", []string{"iface:xmlsig.Signer.CreateSignature"}},
+		{"signature.CreateRedirect", []string{"(*github.com/russellhaering/goxmldsig.SigningContext).SignString"}},
+	} {
+		fn := w.Func(sg.key)
+		if fn == nil {
+			r.Fail("R-SIGNER", sg.key, "", "anchor function not found")
+			continue
+		}
+		isCrypto := func(c ssa.CallInstruction) bool {
+			n := calleeName(c)
+			if f := calleeOf(c); f != nil && f.Pkg != nil && isModulePath(f.Pkg.Pkg.Path()) {
+				n = w.FuncKey(throughDelegation(f))
+				if k := w.FuncKey(f); k != n {
+					for _, want := range sg.crypto {
+						if k == want {
+							return true
+						}
+					}
+				}
+			}
+			for _, want := range sg.crypto {
+				if n == want {
+					return true
+				}
+			}
+			return false
+		}
+		st, pos, msg := cx.verifierEval(throughDelegation(fn), isCrypto)
+		switch st {
+		case "ok":
+			r.Ok("R-SIGNER", sg.key, pos, "a nil error only as / under the verdict of the signing call")
+		case "undecided":
+			r.Undecided("R-SIGNER", sg.key, pos, msg)
+		case "nocalls":
+			r.Fail("R-SIGNER", sg.key, pos, "the function no longer calls "+strings.Join(sg.crypto, " / ")+": nothing is signed")
+		default:
+			r.Fail("R-SIGNER", sg.key, pos, strings.Replace(msg, "no signature verification succeeded", "the signing call did not succeed", 1)+": the caller takes the message for signed")
+		}
+	}
+
+	// ... and the signature that was made is the one attached: wherever signature.Create is called, its result is
+	// stored into the message's Signature field before any return that reports success
+	nAttach := 0
+	for _, fn := range w.Funcs {
+		for _, c := range callsIn(fn) {
+			call, isCall := c.(*ssa.Call)
+			g := calleeOf(c)
+			if !isCall || g == nil || w.FuncKey(g) != "signature.Create" {
+				continue
+			}
+			nAttach++
+			var sigv ssa.Value
+			for _, ref := range nonDebugRefs(call) {
+				if ex, isE := ref.(*ssa.Extract); isE && ex.Index == 0 {
+					sigv = ex
+				}
+			}
+			var stores []*ssa.Store
+			if sigv != nil {
+				for _, st := range fx.info(fn).stores {
+					fa, isFA := st.Addr.(*ssa.FieldAddr)
+					if !isFA || fname(fieldVar(fa.X.Type(), fa.Field)) != "Signature" {
+						continue
+					}
+					same := st.Val == sigv
+					for _, a := range fx.aliasesOf(sigv) {
+						if a == st.Val {
+							same = true
+						}
+					}
+					if same {
+						stores = append(stores, st)
+					}
+				}
+			}
+			bad := ""
+			if len(stores) == 0 {
+				bad = "the signature made here is never stored into the message"
+			}
+			fi := fx.info(fn)
+			for _, ret := range returnsOf(fn) {
+				if bad != "" || len(ret.Results) == 0 || !fi.reachable(call.Block(), ret.Block()) && call.Block() != ret.Block() {
+					continue
+				}
+				last := ret.Results[len(ret.Results)-1]
+				if !isErrorType(last.Type()) {
+					continue
+				}
+				if isFreshError(last) {
+					continue
+				}
+				// a return that can report success (nil, or an error value that may be nil): the store comes first
+				if !isNilConst(last) {
+					if nonNil, tested := fx.errBranches(last); tested {
+						onFailing := false
+						for _, nb := range nonNil {
+							// (a block that can also be entered another way - `if err != nil || always` - is not the failing side)
+							if len(nb.Preds) == 1 && (nb == ret.Block() || nb.Dominates(ret.Block())) {
+								onFailing = true
+							}
+						}
+						if onFailing {
+							continue
+						}
+					}
+				}
+				// no way from the signing call to this return that passes neither the store nor the failing side of the call
+				avoid := map[*ssa.BasicBlock]bool{}
+				for _, st := range stores {
+					avoid[st.Block()] = true
+				}
+				if ce, has, _ := errResult(call); has && ce != nil {
+					nb, _ := fx.errBranches(ce)
+					for _, b := range nb {
+						if len(b.Preds) == 1 {
+							avoid[b] = true
+						}
+					}
+				}
+				okS := avoid[call.Block()] || avoid[ret.Block()]
+				if !okS {
+					seenB := map[*ssa.BasicBlock]bool{call.Block(): true}
+					work := []*ssa.BasicBlock{call.Block()}
+					reached := false
+					for len(work) > 0 && !reached {
+						b := work[0]
+						work = work[1:]
+						for _, sc := range b.Succs {
+							if seenB[sc] || avoid[sc] {
+								continue
+							}
+							if sc == ret.Block() {
+								reached = true
+							}
+							seenB[sc] = true
+							work = append(work, sc)
+						}
+					}
+					okS = !reached && call.Block() != ret.Block()
+				}
+				if !okS {
+					bad = "a return that reports success (" + w.InstrPos(ret) + ") is reached without the signature having been attached to the message"
+				}
+			}
+			r.Check(bad == "", "R-SIGNER", "attach@"+w.FuncKey(fn), w.InstrPos(call), "the signature is attached before success is reported", bad+": the message is taken for signed and sent without its signature")
+		}
+	}
+	if nAttach == 0 {
+		r.Fail("R-SIGNER", "attach:#sites", "", "no call of signature.Create found")
+	}
+
 	// --- sign table = send table ------------------------------------------------------------------------
 	cs := w.Func("provider.createSignature")
 	sb := w.Func("provider.(*Response).sendBackResponse")
